@@ -49,62 +49,40 @@ _STD = ('std / dependency contracts assumed by the Verus proofs (listed per grou
 
 PROPS = {
     'C01': dict(level='other', groups=['parse', 'fmt', 'builder', 'purl', 'cksum'], kani=ESC, bounded=['tokens:C01', 'spell:C01', 'format:C01'] + A,
-        explanation='Deductive part: the escape tables (Kani, complete over all 256 bytes through the real encoder), build() canonicalises (Verus, '
-                    'U-build), accessors (Verus). The inverse direction parse(format(x)) = x is NOT proved; it is checked BOUNDED: every '
-                    'string of the token language T_N and every spelling of S accepted by the real parser is printed, re-parsed, compared and printed again, '
-                    'for String, SmallString and PackageType.'),
+        explanation='Proved for all strings (Verus): from_str == parse_post (the parser as a specification function written from the statement), Display::fmt == canon_spec, build() canonicalises; complete on a finite domain (Kani): every byte of every escape set through the real encoder. NOT proved: the theorem about the two specification functions that parsing a canonical string gives the value back; it is checked BOUNDED on the real code: every accepted string of the token language T_N and of the spelling domain S is printed, re-parsed, compared and printed again, for String, SmallString and PackageType.'),
     'C02': dict(level='other', groups=['parse', 'parse_seg', 'lib_shape', 'qual', 'cksum'], kani=['type_char', 'key_char'], bounded=['spell:C02', 'tokens:C02'] + A,
-        explanation='Proved for all strings (Verus): which type strings and qualifier keys are legal and how they are lower-cased (U-vtype, U-shape, '
-                    'U-qkey). Which substring is routed to which decoder (from_str) and the segment decoders are checked BOUNDED: exhaustive '
-                    'tuples x spelling freedoms (S) and every T_N string against an independent reference recogniser.'),
+        explanation="Proved for all strings (Verus): from_str == parse_post -- designated separators taken right to left (last '#', last '?', first '/', last '@', last '/'), each component routed to its decoder; decode_subpath / decode_namespace / decode_qualifiers equal their fold specifications; type and key legality and lower-casing; checksum text. BOUNDED: that every permitted spelling of a tuple is mapped to the tuple by these specification functions -- exhaustive tuples x spelling freedoms (S) and every T_N string against an independent reference parser, on the real code."),
     'C03': dict(level='other', groups=['fmt', 'qual', 'purl', 'pkgtype'], kani=ESC, bounded=['format:C03', 'tokens:C03', 'spell:C03', 'qualmap'] + A,
-        explanation='Complete on a finite domain (Kani): every byte of every escape set through the real percent_encode, upper-case hex. Proved (Verus): '
-                    'qualifier storage is strictly ascending after every mutator (U-qmap), accessors map empty to None (U-acc). The order of '
-                    'components / separators in Display::fmt is checked BOUNDED against an independent renderer on every Unicode scalar value '
-                    'in every component position, all ASCII pairs, T_N and S.'),
+        explanation='Proved (Verus): on Ok, the output of Display::fmt is exactly canon_spec(type, parts) = pkg: type / [namespace /] name [@ version] [? k=v & ...] [# subpath] with absent parts omitted, pairs in storage order; storage order is strictly ascending after every verified mutator; accessors map empty to None; the documented panic is the precondition. Complete (Kani): every byte of every escape set, upper-case hex. BOUNDED: retain keeps the order; cross-check against an independent renderer on every Unicode scalar value in every component position, all ASCII pairs, T_N, S, and the map exploration.'),
     'C04': dict(level='other', groups=['builder', 'parse', 'lib_shape', 'qual', 'pkgtype', 'cksum', 'purl'], kani=['type_char', 'key_char'], bounded=['tokens:C04', 'builder', 'protocol', 'preds', 'checksum'] + A,
-        explanation='Proved (Verus) for every PurlShape implementation: build() returns a value with non-empty name, qualifier invariant (valid lower-case keys, '
-                    'strictly ascending), non-empty values (checksum: canonical text), after exactly one hook call (U-build against an uninterpreted hook relation); '
-                    'built-in shapes validate and lower-case the type (U-shape x3). That from_str ends in build() and the checksum text form are checked BOUNDED.'),
+        explanation='Proved (Verus) for every PurlShape implementation: build() returns a value with non-empty name, the qualifier invariant (valid lower-case keys, strictly ascending, each retrievable: search/get contracts), non-empty values including the checksum text, after exactly one hook call (build_post); from_str ends in build() (parse_post); built-in shapes validate and ASCII-lower-case the type; the checksum text is the strictly sorted listing with lower-case hex (canon_text). Assumed at two call sites inside build(): Qualifiers::retain(non-empty) (FnMut is outside Verus) and try_get_typed::<Checksum>() -- both BOUNDED by the map / checksum / protocol suites.'),
     'C05': dict(level='other', groups=['parse', 'parse_seg', 'lib_shape', 'qual', 'pkgtype', 'builder', 'cksum'], kani=['type_char', 'key_char'], bounded=['faults', 'tokens:C05'] + A,
-        explanation='Proved (Verus): the error clauses of the stage functions (invalid type => InvalidPackageType, invalid key => InvalidQualifier, empty name => '
-                    'MissingRequiredField(Name), maven without namespace => MissingRequiredField(Namespace), checksum failure => InvalidQualifier converted with From). '
-                    'Routing and decoding faults are checked BOUNDED: every single fault kind x position x spelling over S, and never-accepted over T_N.'),
+        explanation="Proved (Verus): the error clauses of parse_post (scheme, missing type, missing name, invalid type before the conversion), dq_fold (item without '=', invalid key, key already present => InvalidQualifier; undecodable value => InvalidEscape), sub_fold / ns_fold (hidden '/', encoded dot segments, bad UTF-8 => InvalidEscape), ck_parse / canon text (malformed checksum => InvalidQualifier), build_post (empty name), pkg_finish_rel (maven without namespace), with the conversion of ParseError through From. BOUNDED: that a string with exactly one listed defect reaches exactly that clause -- every fault kind x position x spelling over S, never-accepted over T_N; PackageType::from_str (phf)."),
     'C06': dict(level='other', groups=['lib_lower', 'lib_shape', 'pkgtype', 'qual', 'builder', 'purl', 'parse_seg', 'cksum', 'fmt', 'parse'], kani=ESC + ['type_char', 'key_char', 'empty_is_invalid', 'package_type_names'],
         bounded=['nopanic', 'tokens:C06', 'checksum', 'qualmap', 'protocol', 'preds', 'builder'],
-        explanation='Deductive: every verified unit carries Verus obligations for arithmetic overflow, unwrap, indexing and (documented-panic) preconditions, and '
-                    'termination of its loops; Kani adds its automatic checks on the harnessed code. Panic sites outside verified units are covered only BOUNDED '
-                    '(catch_unwind around every call of every domain, overflow checks on, random strings to 1 MiB).'),
+        explanation='Deductive: every verified unit carries Verus obligations for arithmetic overflow (the checksum capacity computation included), unwrap, indexing, the three documented panics as preconditions, and termination of its loops; Kani adds its automatic checks on the harnessed code. Functions outside Verus (retain, try_from_iter, Index, IterMut, Entry combinators, Checksum accessors, serde, PackageType::from_str) are covered only BOUNDED: catch_unwind around every call of every domain, overflow checks on, random strings to 1 MiB.'),
     'C07': dict(level='other', groups=['parse_seg', 'parse'], kani=[], bounded=['segments', 'tokens:C07', 'faults'],
-        explanation='BOUNDED until the segment decoders are verified: all namespace / subpath spellings from 12 pieces (seg, empty, ., .., %2e, %2E, .%2e, %2F, %2f, %5C, ...) '
-                    'up to 4 (quick) / 6 (thorough) pieces, and all T_N strings.'),
+        explanation="Proved (Verus): decode_subpath / decode_namespace equal sub_fold / ns_fold of the pieces between raw '/'; lemma_c07_subpath / lemma_c07_namespace: splitting the reported text at '/' gives back exactly the decoded non-skipped pieces, none empty, none containing '/', none '.' or '..' (subpath); parse_post routes the text after the last '#' / before the last '/' to them. Assumed: a non-empty piece decodes to a non-empty string (A). BOUNDED cross-check: all spellings from 12 pieces up to 4 / 6 pieces, T_N."),
     'C08': dict(level='other', groups=['lib_lower', 'pkgtype', 'builder', 'parse'], kani=['package_type_names'], bounded=['pkgrules', 'lower', 'tokens:C08'] + A,
-        explanation='Proved for all strings and all seven variants (Verus): nuget name = Unicode lower-casing (U-lower), pypi name = pypi_norm written from the statement '
-                    '(U-pypi), maven refused iff the namespace has no significant segment, every other field untouched (U-ptfin frame), build() applies the hook once '
-                    '(U-build). Unicode tables are validated exhaustively (A). Parser-side wiring and unknown-type refusal are BOUNDED.'),
+        explanation='Proved for all strings and all seven variants (Verus): nuget name = Unicode lower-casing (lower_seq), pypi name = pypi_norm written from the statement, maven refused iff the namespace has no significant segment, every other field untouched (frame), parser and builder both end in build() which applies the hook once. Unicode tables validated exhaustively (A). BOUNDED: unknown-type refusal (phf / unicase lookup), cross-checks on every scalar value.'),
     'C09': dict(level='other', groups=['builder', 'qual', 'pkgtype', 'purl', 'fmt'], kani=ESC, bounded=['builder', 'format:C09'] + A,
-        explanation='Proved (Verus): every setter sets its field and leaves every other field unchanged (frames => override and commutation), with_qualifier accepts '
-                    'exactly valid keys with the whole-content postcondition of insert, build() succeeds/fails as stated. "The string form re-parses to the same fields" is BOUNDED: '
-                    'all call sequences of length <= 2 (quick) / 3 over a value universe, and every scalar value in every field.'),
+        explanation='Proved (Verus): every setter sets its field and leaves every other field unchanged (frames => override and commutation), with_qualifier accepts exactly valid keys with the whole-content postcondition of insert, build() succeeds / fails as stated (build_post), Display == canon_spec. BOUNDED: that the string form re-parses to the same fields -- all call sequences of length <= 2 / 3 over a value universe, and every scalar value in every field.'),
     'C10': dict(level='other', groups=['builder', 'purl', 'lib_lower', 'pkgtype', 'cksum'], kani=[], bounded=['tokens:C10', 'spell:C10', 'builder'] + A,
-        explanation='Proved (Verus): into_builder moves type and parts unchanged (U-acc), build() = hook + generic clean-up (U-build), name rules are the spec functions lower_seq / '
-                    'pypi_norm. Idempotence of the whole pipeline on produced values is checked BOUNDED on every accepted T_N / S string and every built value.'),
+        explanation='Proved (Verus): into_builder moves type and parts unchanged, build() = hook + generic clean-up (build_post), name rules are the specification functions lower_seq / pypi_norm, checksum text = canon_text. BOUNDED: idempotence of the whole pipeline on produced values -- every accepted T_N / S string and every built value is re-built and compared.'),
     'C11': dict(level='other', groups=['qual'], kani=['key_char'], bounded=['qualmap', 'preds'] + A,
         explanation='Proved (Verus) for all strings and all contents: key validity and lower-casing, comparator total (never None), search, get, contains_key, insert, remove, clear, '
                     'entry, VacantEntry::insert, OccupiedEntry::{get,get_mut,into_mut,insert,remove,remove_entry}, get_mut, insert_typed, remove_typed each preserve the invariant '
                     'and have whole-content postconditions (named position pos_of, no existential). retain / iterators / try_from_iter / Eq-Hash-Ord are BOUNDED: every reachable '
                     'content over a universe x every operation against a BTreeMap, to a fixpoint.'),
     'C12': dict(level='other', groups=['cksum', 'lib_lower', 'builder'], kani=[], bounded=['checksum'] + A,
-        explanation='Proved (Verus): algorithm lower-casing (copy_as_lowercase == lower_seq), build() replaces the checksum by the text form or refuses. The Checksum <-> text '
-                    'functions are BOUNDED: all insertion sequences (length <= 3 / 4) over 8 algorithms x 5 byte strings, insert and insert_raw with case variants, typed round trip, equivalent spellings.'),
+        explanation="Proved (Verus): the text of a Checksum is canon_text(entries) -- the strictly sorted listing, lower-case hex -- for EVERY order in which the hash map yields its entries (iteration order modelled as arbitrary; uniqueness lemma), refused iff some value is not an even number of hex digits, no arithmetic overflow for any map including the empty one; parsing equals ck_parse (split ',', last ':', lower-cased algorithm, duplicates refused); build() stores that text. BOUNDED: insert / insert_raw / remove / get and text -> entries -> text: all insertion sequences (length <= 3 / 4) over 10 algorithms x 5 byte strings with case variants, typed round trip, equivalent spellings."),
     'C13': dict(level='proof', groups=['lib_shape'], kani=['type_char'], bounded=['preds', 'shapes', 'tokens:C13'] + A,
         explanation='Proved (Verus, all strings): the finish bodies of String, Cow<str> (both arms) and SmartString satisfy the SAME functional postcondition shape_rel '
                     '(Ok iff valid type; on Ok the type is ASCII-lower-cased; parts untouched), package_type() is the identity view; everything else is one generic body. '
                     'Bounded cross-checks on the compiled code accompany the proof.',
         trusted=['SmartString<M> implements the String operations used (deref to str, make_ascii_lowercase) with String semantics: its impl is verified over SmallString = String']),
     'C14': dict(level='other', groups=['builder', 'parse'], kani=[], bounded=['protocol'],
-        explanation='Proved (Verus) for every PurlShape: the result of build() is the generic checks applied to exactly ONE application of the hook relation to the initial state; a hook error is '
-                    'returned unchanged; emptied name refused, empty qualifiers removed, checksum canonicalised or refused. Parser side (conversion once, on the raw valid substring) is BOUNDED: 2 x 9 counting shapes x T_N.'),
+        explanation='Proved (Verus) for every T: FromStr + PurlShape: parse_post -- the conversion relation is consulted once, with exactly the syntactically valid type substring as written, never after an earlier defect; a conversion error is returned through From unchanged; then build_post: the generic checks applied to exactly ONE application of the hook relation; a hook error is returned unchanged; emptied name refused, empty qualifiers removed, checksum canonicalised or refused. Assumed inside build(): retain / try_get_typed wrappers. BOUNDED: 2 x 9 counting shapes x T_N on the compiled code.'),
     'C15': dict(level='other', groups=['pkgtype'], kani=['package_type_names'], bounded=['names'],
         explanation='Complete on finite domains: the 7-variant name table (Kani + Verus: name() == type_name), all 192 case variants (enumerated). The converse over all strings rests on phf / UniCase '
                     '(dependency); BOUNDED: strings <= 4 / 5 over the names\' letters plus look-alikes, one-edit neighbours, the spec\'s other type names.'),
